@@ -8,10 +8,12 @@ import (
 	sos "kverif/shim/os"
 )
 
-func WriteFile(name string, data []byte, perm fs.FileMode) error { return sos.WriteFile(name, data, perm) }
-func ReadFile(name string) ([]byte, error)                      { return sos.ReadFile(name) }
-func TempDir(dir, pattern string) (string, error)               { return sos.MkdirTemp(dir, pattern) }
-func TempFile(dir, pattern string) (*sos.File, error)           { return sos.CreateTemp(dir, pattern) }
+func WriteFile(name string, data []byte, perm fs.FileMode) error {
+	return sos.WriteFile(name, data, perm)
+}
+func ReadFile(name string) ([]byte, error)            { return sos.ReadFile(name) }
+func TempDir(dir, pattern string) (string, error)     { return sos.MkdirTemp(dir, pattern) }
+func TempFile(dir, pattern string) (*sos.File, error) { return sos.CreateTemp(dir, pattern) }
 func ReadDir(dirname string) ([]fs.FileInfo, error) {
 	es, err := sos.ReadDir(dirname)
 	if err != nil {
